@@ -9,6 +9,7 @@ import (
 	"sort"
 	"strconv"
 	"strings"
+	"sync"
 	"time"
 
 	"golang.org/x/tools/go/ssa"
@@ -260,6 +261,43 @@ func cmdCheck(prop, tier string) int {
 		}
 		fmt.Println(line)
 	}
+	// bounded stand-ins (never counted as proved)
+	var bounded []BoundedResult
+	bspecs := ss.Bounded[prop]
+	if os.Getenv("VERIF_NO_BOUNDED") != "" {
+		bspecs = nil // selftest of proof obligations only
+	}
+	for _, spec := range bspecs {
+		for _, br := range runBounded(*flagRepo, filepath.Join(verif, "replay"), spec, tier, tmp) {
+			bounded = append(bounded, br)
+			if !br.Ran {
+				fmt.Fprintf(os.Stderr, "govc: bounded stand-in %s did not run:\n%s\n", spec, br.Output)
+				return fail(fmt.Errorf("bounded stand-in %s did not run", spec))
+			}
+			if br.Failures > 0 {
+				known := false
+				for _, kf := range finds {
+					if kf.Prop == prop && kf.Obligation == "bounded/"+br.Name && kf.Input != "" && strings.Contains(br.First, kf.Input) && br.Failures == 1 {
+						known = true
+						knownLines = append(knownLines, fmt.Sprintf("KNOWN-FINDING: property=%s %s (bounded/%s)", prop, kf.What, br.Name))
+					}
+				}
+				if known {
+					continue
+				}
+				nviol++
+				rpath := filepath.Join(evDir, "replay", prop+"__bounded_"+san(br.Name)+".json")
+				b, _ := json.MarshalIndent(map[string]any{"property": prop, "obligation": "bounded/" + br.Name, "bounded": br, "failing_input": br.First}, "", " ")
+				os.WriteFile(rpath, b, 0o644)
+				fmt.Printf("bounded stand-in %s: %d failures, first: %s\n", br.Name, br.Failures, br.First)
+				line := fmt.Sprintf("VIOLATION property=%s replay=%s", prop, rpath)
+				if strings.HasPrefix(br.First, "the stand-in did not finish") {
+					line += " no-failing-input-found"
+				}
+				fmt.Println(line)
+			}
+		}
+	}
 	for _, l := range knownLines {
 		fmt.Println(l)
 	}
@@ -285,6 +323,10 @@ func cmdCheck(prop, tier string) int {
 		"termination_not_shown":    termMissing,
 		"warnings":                 warnings,
 		"cover_checks":             len(covers),
+	}
+	if len(bounded) > 0 {
+		cov["bounded_standins"] = bounded
+		cov["bounded_note"] = "bounded stand-ins are exhaustive runs of the real functions up to the stated bound; they are not counted in obligations/discharged"
 	}
 	if extra := propertyNotes[prop]; extra != nil {
 		for k, v := range extra {
@@ -314,6 +356,10 @@ func round3(f float64) float64 { return float64(int(f*1000+0.5)) / 1000 }
 // coverChecks: asserting false at the function's exits must not be provable.
 func coverChecks(cfg *solveCfg, gens []*Gen) []*Obl {
 	var out []*Obl
+	ccfg := *cfg
+	ccfg.secs = 3 // a cover query is expected to be satisfiable; only a quick unsat matters
+	ccfg.agree = false
+	var wg sync.WaitGroup
 	for _, g := range gens {
 		if g.fn == nil || len(g.exits) == 0 {
 			continue
@@ -324,17 +370,21 @@ func coverChecks(cfg *solveCfg, gens []*Gen) []*Obl {
 		}
 		o := &Obl{Name: g.key + "/vacuous/exit", Fn: g.key, Kind: "vacuity", ncmds: len(g.cmds), reach: or(rs...), goal: "false", gen: g,
 			Src: "some return is reachable under the preconditions and invariants"}
-		q := o.query("")
-		r := race(cfg, o.Name, q)
-		if r.verdict == "unsat" {
-			o.Verdict = "vacuous"
-			o.Output = "every return is unreachable: preconditions, invariants or assumed contracts are contradictory"
-		} else {
-			o.Verdict = "reachable:" + r.verdict
-		}
-		o.Solver, o.Secs = r.solver, r.secs
 		out = append(out, o)
+		wg.Add(1)
+		go func() {
+			defer wg.Done()
+			r := race(&ccfg, o.Name, o.query(""))
+			if r.verdict == "unsat" {
+				o.Verdict = "vacuous"
+				o.Output = "every return is unreachable: preconditions, invariants or assumed contracts are contradictory"
+			} else {
+				o.Verdict = "reachable:" + r.verdict
+			}
+			o.Solver, o.Secs = r.solver, r.secs
+		}()
 	}
+	wg.Wait()
 	return out
 }
 
